@@ -51,16 +51,45 @@ VH_ENTRY vh_lineend() {
 #ifndef SFLAGS
 #define SFLAGS 0
 #endif
+#ifndef JWBOUND
+#define JWBOUND 1048576.f
+#endif
+struct SJ24 { SlotJustify *next; int16 values[8]; };      // one SlotJustify record of a font without justification levels (SlotJustify::size_of(1) bytes)
+static_assert(sizeof(SJ24) == 24, "SlotJustify::size_of(1)");
+static __attribute__((noinline)) SlotJustify *make_pool() {
+  SlotJustify *head = 0;
+  for (unsigned i = 0; i < NS + NSPARE; ++i) {
+    SJ24 *j = vh_new<SJ24>(); j->next = head; head = reinterpret_cast<SlotJustify *>(j);
+    j->values[0] = (int16)nondet_u16(); j->values[1] = (int16)nondet_u16(); j->values[2] = (int16)nondet_u16(); j->values[3] = (int16)nondet_u16();
+    j->values[4] = (int16)nondet_u16(); j->values[5] = (int16)nondet_u16(); j->values[6] = (int16)nondet_u16(); j->values[7] = (int16)nondet_u16();
+  }
+  return head;
+}
 VH_ENTRY vh_justify() {
   World w; vh_make_face(w); vh_make_segment(w); vh_slot_floats(w);
   ASSUME(inv_stream(w));
   for (unsigned i = 0; i < NS; ++i) { w.sl[i]->m_parent = w.sl[i]->m_child = w.sl[i]->m_sibling = 0; ASSUME(w.sl[i]->m_glyphid < NG && w.sl[i]->m_realglyphid < NG); }
   w.silf->m_flags = SFLAGS; w.silf->m_dir = 0; w.silf->m_bPass = 0; w.silf->m_numPasses = 0; w.silf->m_jPass = 0; w.silf->m_pPass = 0; w.silf->m_numJusts = 0;
   w.silf->m_gEndLine = 0;
+#ifdef JDIR      /* text direction and font direction given by the query: justify reverses the line on entry and again on exit when they differ */
+  w.seg->m_dir = (JDIR) & 1; w.silf->m_dir = ((JDIR) >> 1) & 1; w.silf->m_bPass = 0xff;          // JDIR enumerates (text direction, font direction); no bidi pass
+  for (unsigned i = 0; i < NS; ++i) ASSUME(w.sl[i]->m_bidiCls != -1 && w.sl[i]->m_bidiCls != 16);        // classes known (no glyph attribute lookup); no marks: how reverseSlots moves mark runs is decided by the reverse/reverse_line lemmas
+#else
   w.seg->m_dir = 0;                                         // no reversal in this lemma (reverseSlots is decided in C03)
+#endif
   w.seg->linkClusters(w.seg->m_first, w.seg->m_last);        // base chain as Segment::finalise leaves it
+#ifdef PREPOOL   /* the segment's SlotJustify free list already holds one record per slot (the state after any earlier justify call); the
+                    pool-growth path of Segment::newJustify is exercised by the NS = 1 queries, which run without this */
+  w.seg->m_freeJustifies = make_pool();
+#endif
   uint16 gids[NS]; for (unsigned i = 0; i < NS; ++i) gids[i] = w.sl[i]->m_glyphid;
-  float width = nondet_fin(1048576.f);
+  float width = nondet_fin(JWBOUND);
+#ifdef NEGWIDTH  /* a negative width asks for nothing (no line-end contextuals: SFLAGS == 0): the early exit must leave the line as it found it */
+  ASSUME(width < 0);
+#if NEGWIDTH == 2   /* quick tier: one concrete negative width (the symbolic-width query needs ~170 s: the solver, not symex, prunes the dead justification code) */
+  width = -1.0f;
+#endif
+#endif
   unsigned jf = nondet_u8() & 3;
   float res = w.seg->justify(w.sl[0], 0, width, justFlags(jf), 0, 0);
   ASSERT(res == res && res <= 3.0e38f && res >= -3.0e38f, "returned width is a finite number");
